@@ -211,6 +211,24 @@ CLAIMED = {
         "pycsugar/enigma_csp/cspuz_core assumed to print the same formats; one-operand SUB (only buildable by hand) excluded.",
         "Lean 4 theorems (printer/parser round trips by induction) + regenerated name/dispatch table + text-level correspondence",
         "DESIGN.md §5 C03"),
+    "C11": (
+        "PARTIAL (per-puzzle; the evidence file lists the status of each of the 26 modules, measured on each run). Kernel-checked: "
+        "C11_compose (if the program posted by a solve_<puzzle> encodes the rules R -- an answer grid extends to a model of the whole "
+        "program incl. hidden variables iff it obeys R -- then for every correct backend the solver reports a solution iff a "
+        "rule-obeying grid exists and its decided cells are exactly the cells on which all rule-obeying grids agree), and per puzzle "
+        "`Cspuz.C11.<P>.program_iff_rules` + `total` (the Lean model of the posted program encodes an independently written rules "
+        "spec, for all board sizes and clue layouts) for the puzzles whose status is 'theorem'. For EVERY one of the 26 modules "
+        "regardless of proof status: (a) program correspondence -- the program posted by the real solve_<p> (recording Solver "
+        "substituted in the module) equals the Lean model's program (declarations, constraint multiset, answer keys) on random small "
+        "instances; (b) rule differential -- real solve_<p> through z3 vs exact facts by brute force over all answer grids with an "
+        "independent plain-Python rule checker. yinyang, castle_wall and shakashaka rest on planar arguments and stay at model + "
+        "differential.",
+        "Relative to a correct backend. Trusted: Lean kernel + standard axioms; the rule specs (Spec/PuzzleRules/*.lean) and the Python "
+        "rule checkers, written from the published rule texts (adopted readings are marked READING: in the modules: nurikabe needs a "
+        "sea cell, aquarium levels per touching cells, empty loop allowed); hand-written program models tied by program equality; "
+        "puzzles without a theorem are covered only by the bounded differential on small boards.",
+        "Lean 4 theorems (composition + per-puzzle encodes-rules) + program-equality correspondence + bounded rule differential",
+        "DESIGN.md §5 C11"),
 }
 
 NOT_YET = "machinery for this property is still under construction in this round (model/theorems not yet committed)"
@@ -260,7 +278,7 @@ def main():
         json.dump(m, f, indent=1)
     # the library root imports the property files of every claimed check, so that setup_cmd builds them all
     root = ["-- generated by harness/manifest.py: one import per claimed property"]
-    root += [f"import CspuzModel.Properties.{p}" for p in sorted(CLAIMED)]
+    root += [f"import CspuzModel.Properties.{'C11All' if p == 'C11' else p}" for p in sorted(CLAIMED)]
     with open(os.path.join(VERIF, "lean", "CspuzModel.lean"), "w") as f:
         f.write("\n".join(root) + "\n")
 
